@@ -1584,6 +1584,9 @@ impl ProtocolState {
     fn service_connected(&mut self, context: &mut ServiceContext) -> GneissResult<()> {
         debug!("[{} ms] service_connected", self.elapsed_time_ms);
 
+        // ack timeouts that have elapsed are applied first: a keep-alive failure (or a failure while writing) found by this
+        // very call must not carry the operation over to the next connection with a fresh clock
+        self.process_ack_timeouts()?;
         self.service_keep_alive(context)?;
         self.service_queue(context, ProtocolQueueServiceMode::All)?;
         self.process_ack_timeouts()?;
